@@ -67,11 +67,26 @@ type TypeSpec interface {
 // For most types, this is the type itself. For Typedefs, it is the root
 // TypeSpec of the Typedef's target.
 func RootTypeSpec(s TypeSpec) TypeSpec {
-	if t, ok := s.(*TypedefSpec); ok {
-		return t.root
+	// The root cached on a TypedefSpec is computed when that typedef is
+	// linked, which may happen in the middle of a chain of typedefs whose
+	// later members have not been linked yet. Follow the chain of targets
+	// instead of trusting the cache.
+	for depth := 0; depth < maxTypedefDepth; depth++ {
+		t, ok := s.(*TypedefSpec)
+		if !ok {
+			return s
+		}
+		if t.Target == nil {
+			return t.root
+		}
+		s = t.Target
 	}
-	return s
+	return nil
 }
+
+// maxTypedefDepth bounds the length of typedef chains followed by
+// RootTypeSpec so that it terminates on (invalid) cyclic typedefs.
+const maxTypedefDepth = 1 << 10
 
 // nativeThriftType is the common parent for all TypeSpecs that are native
 // Thrift types.
